@@ -6,7 +6,7 @@ use crate::gen;
 use crate::oracle::{check_samples, open, SampleCheckOpts};
 use crate::refmp4::movie::*;
 use crate::refmp4::{cc, Cc, Node};
-use crate::ensure;
+use crate::{ensure, fail};
 use mp4::Metadata;
 use proptest::prelude::*;
 use serde::{Deserialize, Serialize};
@@ -333,7 +333,87 @@ pub fn movie_strategy() -> impl Strategy<Value = Movie> {
     ]
 }
 
+/// 'header-form' stage: a free/unknown box inserted into a box that has children but does *not*
+/// iterate over them (hev1, vp09, edts, stsd, dref, ...). The statement does not say such an
+/// insertion is harmless - but whatever the reader makes of it, the 32-bit and the 64-bit size
+/// header of the inserted box are two layouts of the same thing and must be treated alike.
+#[derive(Clone, Debug, Serialize, Deserialize)]
+pub struct FormCase {
+    pub movie: Movie,
+    pub path: Vec<usize>,
+    pub pos: usize,
+    pub typ: Cc,
+    pub len: u16,
+}
+
+fn strict_sites(n: &Node, path: &mut Vec<usize>, in_ilst: bool, out: &mut Vec<(Vec<usize>, usize, Cc)>) {
+    let kids: Vec<&Node> = n.children().collect();
+    if !kids.is_empty() && !(is(&n.typ, &ITERATING) || in_ilst) {
+        for pos in 0..=kids.len() {
+            out.push((path.clone(), pos, n.typ));
+        }
+    }
+    for (i, k) in kids.iter().enumerate() {
+        path.push(i);
+        strict_sites(k, path, n.typ == cc("ilst"), out);
+        path.pop();
+    }
+}
+
+pub fn form_oracle(ctx: &mut Ctx, c: &FormCase) -> Check {
+    let mut out = Vec::new();
+    for large in [false, true] {
+        let mut v = c.movie.clone();
+        v.xforms = vec![Xform::Insert { path: c.path.clone(), pos: c.pos, typ: c.typ, len: c.len, large }];
+        let vb = build(&v);
+        out.push(digest(&vb.bytes));
+    }
+    let (a, b) = (&out[0], &out[1]);
+    ctx.count(match (a.is_ok(), b.is_ok()) {
+        (true, true) => "header-form:both-forms-open",
+        (false, false) => "header-form:both-forms-rejected",
+        _ => "header-form:forms-treated-differently",
+    });
+    ctx.nontrivial(crate::engine::fp_of(&(&c.path, c.pos, c.typ, c.len, crate::engine::fp_of(&c.movie))));
+    match (a, b) {
+        (Ok(x), Ok(y)) => {
+            ensure!(x == y, "c12:header-form-results", "a '{}' box inserted as child {} of the box at {:?} gives different results with a 32-bit and with a 64-bit size header", String::from_utf8_lossy(&c.typ), c.pos, c.path);
+            Ok(())
+        }
+        (Err(_), Err(_)) => Ok(()),
+        (Ok(_), Err(f)) => fail!("c12:header-form-64-bit-rejected", "a '{}' box inserted as child {} of the box at {:?} is accepted with a 32-bit size header but rejected with a 64-bit one: {}", String::from_utf8_lossy(&c.typ), c.pos, c.path, f.detail),
+        (Err(f), Ok(_)) => fail!("c12:header-form-32-bit-rejected", "a '{}' box inserted as child {} of the box at {:?} is accepted with a 64-bit size header but rejected with a 32-bit one: {}", String::from_utf8_lossy(&c.typ), c.pos, c.path, f.detail),
+    }
+}
+
 pub fn run(ctx: &mut Ctx) {
+    ctx.stage("header-form");
+    {
+        let bases = base_movies(ctx);
+        let mut idx = 0u64;
+        for m in &bases {
+            let b = build(m);
+            let mut ss = Vec::new();
+            for (i, n) in b.tree.iter().enumerate() {
+                strict_sites(n, &mut vec![i], false, &mut ss);
+            }
+            for (path, pos, host) in ss {
+                for (k, typ) in [cc("free"), cc("xYz1")].into_iter().enumerate() {
+                    let my = idx;
+                    idx += 1;
+                    if !ctx.enter(my) {
+                        continue;
+                    }
+                    ctx.count(&format!("header-form:host:{}", String::from_utf8_lossy(&host)));
+                    let c = FormCase { movie: m.clone(), path: path.clone(), pos, typ, len: ((my as u16).wrapping_mul(7) + k as u16) % 23 };
+                    ctx.pre_case(&c);
+                    let res = form_oracle(ctx, &c);
+                    ctx.judge(&c, res);
+                }
+            }
+        }
+        ctx.extra.insert("header_form_cases".into(), serde_json::json!(idx));
+    }
     ctx.stage("single");
     let bases = base_movies(ctx);
     let mut idx = 0u64;
@@ -362,7 +442,11 @@ pub fn run(ctx: &mut Ctx) {
     ctx.run_prop(strat, cases, |ctx, c| oracle(ctx, c));
 }
 
-pub fn replay(ctx: &mut Ctx, _stage: &str, case: &Value) -> Check {
+pub fn replay(ctx: &mut Ctx, stage: &str, case: &Value) -> Check {
+    if stage == "header-form" {
+        let c: FormCase = serde_json::from_value(case.clone()).map_err(|e| Failure::new("replay:bad-case", e.to_string()))?;
+        return form_oracle(ctx, &c);
+    }
     let c: Case = serde_json::from_value(case.clone()).map_err(|e| Failure::new("replay:bad-case", e.to_string()))?;
     oracle(ctx, &c)
 }
